@@ -84,7 +84,7 @@ def x_obligations(tier):
         o.append(Obl(f"C20-C08-find1[miniB,{s}]", "xhair.obl.c08", "find1", env=_e(VF_SEARCH=s, VF_PRE=epre, VF_N=n), timeout=T, family="C20-C08-item", bound=f"miniB: search {s!r}, list [{epre!r}+a]"))
     cases = [("m/l/*", "m/l/", ".i", "m/l/it/j", "@/M/ZZ;@/M/LIB/it.q", "/M/LIB/it.", "QQ"),
              ("m/p/x/*/*/*/i", "m/p/x/", "/01/s/i", "m/p/x/it/02/p/i;m/p/x/it/02/p/j", "@/M/PROPS/x/it/02/y-it-PUB.02.i", "/M/PROPS/x/it/02/x-it-PUB.02.", "Q"),
-             ("m/p/x/it/01/s/*", "m/p/x/it/01/s/", "", "m/p/x/it/01/s/d;m/p/x/it/01/s/i;m/p/x/it/01/p/t", "@/M/PROPS/x/it/01/x-it-SAV.02.d", "/M/PROPS/x/it/01/x-it-SAV.01.", "Q"),   # pr__file and pr__doc search the same glob
+             ("m/p/x/it/01/s/*", "m/p/x/it/01/s/", "", "m/p/x/it/01/s/d;m/p/x/it/01/s/i;m/p/x/it/01/p/t", "@/M/PROPS/x/it/01/x-it-SAV.02.d", "", ""),   # pr__file and pr__doc search the same glob
              ("m/c/r1/>/*/u", "m/c/r1/0", "/s/u", "m/c/r1/01/s/u;m/c/r1/01/p/o", "@/M/CUTS/r1/01/OUT/r1-SAV.02.u", "/M/CUTS/r1/01/OUT/r1-SAV.01.", "Q")]
     for (s, epre, esuf, fixed, junk, jpre, jsuf) in cases:
         o.append(Obl(f"C20-C11-paths[miniB,{s}]", "xhair.obl.c11", "paths_agree", env=_e(VF_SEARCH=s, VF_EPRE=epre, VF_ESUF=esuf, VF_FIXED=fixed, VF_JUNK=junk, VF_JPRE=jpre, VF_JSUF=jsuf), timeout=T, path_timeout=200,
